@@ -331,7 +331,27 @@ fn model_apply(
 /// Info keys we can ask a manifest or an edit about (the API only offers lookup by key): all of
 /// ASCII plus the non-ASCII key of the alphabet.
 fn probe_keys() -> impl Iterator<Item = char> {
-    (0u8..128).map(|b| b as char).chain(['é', 'ÿ', '\u{80}'])
+    let extra: Vec<char> = EXTRA_KEYS.with(|k| k.borrow().iter().copied().collect());
+    (0u8..128).map(|b| b as char).chain(['é', 'ÿ', '\u{80}']).chain(extra)
+}
+
+thread_local! {
+    /// info keys used by the history being run (so that non-ASCII keys are asked about too)
+    static EXTRA_KEYS: std::cell::RefCell<BTreeSet<char>> = const { std::cell::RefCell::new(BTreeSet::new()) };
+}
+
+fn note_keys(ops: &[Op]) {
+    EXTRA_KEYS.with(|k| {
+        let mut k = k.borrow_mut();
+        k.clear();
+        for op in ops {
+            if let Op::Info(c, _) = op {
+                if !c.is_ascii() {
+                    k.insert(*c);
+                }
+            }
+        }
+    });
 }
 
 pub fn observe(m: &Manifest) -> Model {
@@ -485,6 +505,7 @@ pub fn run(scratch: &Scratch, ratio: u64, ops: &[Op]) -> RunOut {
 }
 
 fn run_inner(scratch: &Scratch, ratio: u64, ops: &[Op]) -> RunOut {
+    note_keys(ops);
     scratch.clear();
     let dir = scratch.sub("m");
     let opts = options(ratio, false);
@@ -769,6 +790,7 @@ pub struct Pristine {
 /// Returns Err when the history itself misbehaves (those are findings of the sequence check, not
 /// of the truncation check).
 pub fn build_pristine(scratch: &Scratch, ratio: u64, ops: &[Op]) -> Result<Pristine, String> {
+    note_keys(ops);
     let dir = scratch.sub("pristine");
     let _ = std::fs::remove_dir_all(&dir);
     let opts = options(ratio, false);
@@ -902,6 +924,9 @@ pub fn string_features(s: &str) -> Vec<&'static str> {
     } else if s.starts_with('-') {
         f.push("leading-minus");
     }
+    if s.chars().any(|c| (c as u32) < 0x20 && c != '\r') || s.contains('\u{7f}') {
+        f.push("control-char");
+    }
     if s.len() >= 200 {
         f.push("long-string");
     }
@@ -919,6 +944,10 @@ pub fn key_features(c: char) -> Vec<&'static str> {
         f.push("info-key-plus");
     } else if c == '-' {
         f.push("info-key-minus");
+    } else if c == '\r' {
+        f.push("info-key-cr");
+    } else if (c as u32) < 0x20 || c == '\u{7f}' {
+        f.push("info-key-control-char");
     } else if !c.is_ascii_alphanumeric() {
         f.push("info-key-punct");
     }
@@ -948,4 +977,44 @@ pub fn history_features(ops: &[Op]) -> (Vec<&'static str>, Vec<&'static str>) {
         }
     }
     (feats.into_iter().collect(), kinds.into_iter().collect())
+}
+
+/////////////////////////////////////////// self-check ////////////////////////////////////////////
+
+/// Machinery self-check of the fragment-chain oracle: it accepts a genuine two-fragment directory
+/// and rejects the same directory after the first line of the live file's roll-up was removed.
+pub fn chain_selfcheck() {
+    let scratch = Scratch::new("selfcheck");
+    let dir = scratch.sub("m");
+    let mut m = Manifest::open(options(1000, false), &dir).expect("selfcheck open");
+    let mut model = Model::default();
+    for (add, info) in [(Some("x"), None), (None, Some(('I', "v"))), (Some("y"), None)] {
+        let mut e = Edit::default();
+        if let Some(s) = add {
+            e.add(s).unwrap();
+            model.strs.insert(s.to_string());
+        }
+        if let Some((c, s)) = info {
+            e.info(c, s).unwrap();
+            model.info.insert(c, s.to_string());
+        }
+        m.apply(e).expect("selfcheck apply");
+        if add == Some("x") {
+            m.rollover().expect("selfcheck rollover");
+        }
+    }
+    drop(m);
+    let (f, n) = check_chain(&dir, &model);
+    assert!(f.is_none() && n == 2, "chain oracle rejects a genuine directory: {f:?}");
+    let live = dir.join("MANIFEST");
+    let text = std::fs::read_to_string(&live).expect("read MANIFEST");
+    let cut = text.find('\n').expect("a line") + 1;
+    std::fs::write(&live, &text[cut..]).expect("tamper");
+    let (f, _) = check_chain(&dir, &model);
+    let f = f.expect("chain oracle accepts a tampered directory");
+    assert!(
+        f.oracle == "fragment-chain-broken",
+        "chain oracle reports {} on a directory whose roll-up lost a line",
+        f.oracle
+    );
 }
